@@ -112,6 +112,34 @@ func ruleRecWorklist(c *Ctx) []Obligation {
 				obs = append(obs, bad(R, con, at, "the visited set that is asked at "+c.InstrPos(setInstr(set, ap))+" is not told about the module that is taken: a cycle of includes or imports is walked for ever"))
 				return
 			}
+			// (c) once entered in the set, the module is also queued — unless an error is made about it (or the
+			// function returns): a module that is marked visited and then passed over is never searched
+			var mark *ssa.MapUpdate
+			eachInstr(fn, func(in2 ssa.Instruction) {
+				if mu, isMU := in2.(*ssa.MapUpdate); isMU && mark == nil && sameObject(mu.Map, set) && sameObject(mu.Key, key) {
+					mark = mu
+				}
+			})
+			if mark != nil {
+				if h := loopHeaderOf(ap.Block()); h != nil {
+					// blocks that make an error value end the path as well
+					stop := map[*ssa.BasicBlock]bool{ap.Block(): true}
+					for _, b := range fn.Blocks {
+						for _, in2 := range b.Instrs {
+							if v, isV := in2.(ssa.Value); isV && isErrorType(v.Type()) {
+								switch in2.(type) {
+								case *ssa.Call, *ssa.MakeInterface:
+									stop[b] = true
+								}
+							}
+						}
+					}
+					if mark.Block() != ap.Block() && blockReaches(mark.Block(), h, stop) {
+						obs = append(obs, bad(R, con, at, "after the module is entered in the visited set at "+c.InstrPos(mark)+" the next one can be taken without this one being queued and without an error about it: what it includes in turn is never visited (a submodule that only passes others on hides them)"))
+						return
+					}
+				}
+			}
 			obs = append(obs, ok(R, con, at, "reached only when the visited set does not hold the module, which is entered in the set on the same path"))
 		})
 	}
@@ -196,3 +224,578 @@ func setInstr(set ssa.Value, dflt ssa.Instruction) ssa.Instruction {
 }
 
 var _ = token.EQL
+
+// ---------------------------------------------------------------- LOOP.BACKSCAN
+
+func init() {
+	register(&Rule{Name: "LOOP.BACKSCAN", Props: []string{"C02"}, Floor: 1,
+		Doc: "a scan that runs backwards over a text, stepping the index down before it reads (`for i := len(s); i > K; { i--; … s[i] … }`), goes down to the first byte: K is 0",
+		Run: ruleLoopBackscan})
+}
+
+func ruleLoopBackscan(c *Ctx) []Obligation {
+	const R = "LOOP.BACKSCAN"
+	var obs []Obligation
+	var fns []*ssa.Function
+	for _, fn := range c.Funcs {
+		if c.isRepoFn(fn) && fn.Blocks != nil {
+			fns = append(fns, fn)
+		}
+	}
+	sort.Slice(fns, func(i, j int) bool { return fns[i].Pos() < fns[j].Pos() })
+	for _, fn := range fns {
+		n := 0
+		for _, b := range fn.Blocks {
+			if !isLoopHeader(b) || len(b.Instrs) == 0 {
+				continue
+			}
+			ifi, isIf := b.Instrs[len(b.Instrs)-1].(*ssa.If)
+			if !isIf {
+				continue
+			}
+			bo, isB := ifi.Cond.(*ssa.BinOp)
+			if !isB || bo.Op != token.GTR && bo.Op != token.GEQ {
+				continue
+			}
+			phi, isPhi := bo.X.(*ssa.Phi)
+			k, isK := constInt(bo.Y)
+			if !isPhi || !isK || phi.Block() != b {
+				continue
+			}
+			// starts at len(x) …
+			var text ssa.Value
+			for i, e := range phi.Edges {
+				if b.Dominates(b.Preds[i]) {
+					continue
+				}
+				if call, isC := e.(*ssa.Call); isC {
+					if bi, isBi := call.Call.Value.(*ssa.Builtin); isBi && bi.Name() == "len" && len(call.Call.Args) == 1 {
+						text = call.Call.Args[0]
+					}
+				}
+			}
+			if text == nil {
+				continue
+			}
+			// … is stepped down by one in the body, and the stepped value indexes the same text
+			var dec *ssa.BinOp
+			for _, r := range refsOf(phi) {
+				if d, isD := r.(*ssa.BinOp); isD && d.Op == token.SUB && d.X == ssa.Value(phi) {
+					if one, is1 := constInt(d.Y); is1 && one == 1 && loopHeaderOf(d.Block()) == b {
+						dec = d
+					}
+				}
+			}
+			if dec == nil {
+				continue
+			}
+			reads := false
+			// the same text, or what is left of it (`s = s[:i]` inside the scan)
+			same := func(x ssa.Value) bool {
+				if sameObject(x, text) {
+					return true
+				}
+				hit := false
+				operandClosure(x, func(y ssa.Value) {
+					if y == text {
+						hit = true
+					}
+				})
+				return hit
+			}
+			for _, r := range refsOf(dec) {
+				switch x := r.(type) {
+				case *ssa.IndexAddr:
+					reads = reads || same(x.X)
+				case *ssa.Index:
+					reads = reads || same(x.X)
+				case *ssa.Lookup:
+					reads = reads || same(x.X)
+				}
+			}
+			if !reads {
+				continue
+			}
+			n++
+			con := fmt.Sprintf("%s: backward scan #%d reaches the first byte of the text", c.FnName(fn), n)
+			low := k
+			if bo.Op == token.GEQ {
+				low = k - 1
+			}
+			if low == 0 {
+				obs = append(obs, ok(R, con, c.InstrPos(ifi), "the index is stepped down before the read and the scan goes on while it is above 0"))
+			} else {
+				obs = append(obs, bad(R, con, c.InstrPos(ifi), fmt.Sprintf("the scan stops while the index is still above %d: the first byte(s) of the text are never looked at (a first line that is all blanks keeps one of them)", low)))
+			}
+		}
+	}
+	return obs
+}
+
+// ---------------------------------------------------------------- LEX.PATTERNKW, SCHEMA.FOUNDKEY, PARSE.FIRSTERR, AUG.ERRHOME
+
+func init() {
+	register(&Rule{Name: "LEX.PATTERNKW", Props: []string{"C02"}, Floor: 1,
+		Doc: "the pattern mode of the lexer (escapes of a double-quoted argument kept as written) is switched on by the keyword token's own text being `pattern`, not by a part of it: `ex:pattern` is an extension statement and its argument an ordinary string",
+		Run: ruleLexPatternKw})
+	register(&Rule{Name: "SCHEMA.FOUNDKEY", Props: []string{"C03"}, Floor: 1,
+		Doc: "the table of substatements seen, which the check for required substatements consults, is keyed by the keyword as written (prefix and all): `m:type` does not stand for `type`",
+		Run: ruleSchemaFoundKey})
+	register(&Rule{Name: "PARSE.FIRSTERR", Props: []string{"C03", "C04"}, Floor: 2,
+		Doc: "Modules.Parse returns the error of the first top-level statement that is rejected, at once: a later statement that is accepted cannot take its place",
+		Run: ruleParseFirstErr})
+	register(&Rule{Name: "AUG.ERRHOME", Props: []string{"C07", "C04"}, Floor: 2,
+		Doc: "the errors the augment applier records go to the entry it was called on (which the error sweep visits), not to the augment, which is not part of any tree",
+		Run: ruleAugErrHome})
+}
+
+func ruleLexPatternKw(c *Ctx) []Obligation {
+	const R = "LEX.PATTERNKW"
+	m, why := c.lexModel()
+	if m == nil {
+		return []Obligation{undecided(R, "lexer model", "-", why)}
+	}
+	fp, fText := FieldVar(m.lexer, "inPattern"), FieldVar(m.tokenT, "Text")
+	if fp == nil || fText == nil {
+		return []Obligation{undecided(R, "pattern mode", "-", "lexer.inPattern / token.Text not found")}
+	}
+	var obs []Obligation
+	n := 0
+	for _, fn := range c.Funcs {
+		if !c.isRepoFn(fn) {
+			continue
+		}
+		for _, st := range storesToField(fn, fp) {
+			if k, isK := st.Val.(*ssa.Const); isK && k.Value != nil {
+				continue // switched off (or on) unconditionally
+			}
+			n++
+			con := fmt.Sprintf("%s: pattern mode #%d is switched on by the whole keyword", c.FnName(fn), n)
+			bo, isB := st.Val.(*ssa.BinOp)
+			if !isB || bo.Op != token.EQL {
+				obs = append(obs, undecided(R, con, c.InstrPos(st), "the stored value is not a comparison with a constant keyword"))
+				continue
+			}
+			x := bo.X
+			if _, isK := x.(*ssa.Const); isK {
+				x = bo.Y
+			}
+			if _, f, _ := loadedField(x); f == fText {
+				obs = append(obs, ok(R, con, c.InstrPos(st), "the token's text itself is compared"))
+			} else {
+				obs = append(obs, bad(R, con, c.InstrPos(st), "what is compared with the keyword is computed from the token's text (a part of it): a prefixed extension keyword whose local name is `pattern` switches pattern mode on, and an invalid escape in its argument goes unreported"))
+			}
+		}
+	}
+	return obs
+}
+
+func ruleSchemaFoundKey(c *Ctx) []Obligation {
+	const R = "SCHEMA.FOUNDKEY"
+	build := c.Fn("yang.build")
+	stmtT := c.Named("yang", "Statement")
+	if build == nil || stmtT == nil {
+		return []Obligation{undecided(R, "AST builder", "-", "yang.build / Statement not found")}
+	}
+	fKw := FieldVar(stmtT, "Keyword")
+	var obs []Obligation
+	n := 0
+	c.eachInstrDeep(build, func(in ssa.Instruction) {
+		mu, isMU := in.(*ssa.MapUpdate)
+		if !isMU || !isSetInsert(mu) {
+			return
+		}
+		derives := false
+		operandClosure(mu.Key, func(x ssa.Value) {
+			if _, f, _ := loadedField(x); f == fKw {
+				derives = true
+			}
+		})
+		if _, f, _ := loadedField(mu.Key); f == fKw {
+			derives = true
+		}
+		if !derives {
+			return
+		}
+		n++
+		con := fmt.Sprintf("build: substatement seen #%d is noted under its keyword as written", n)
+		if _, f, _ := loadedField(mu.Key); f == fKw {
+			obs = append(obs, ok(R, con, c.InstrPos(mu), "found[ss.Keyword]"))
+		} else {
+			obs = append(obs, bad(R, con, c.InstrPos(mu), "the key is computed from the keyword (a part of it): an extension statement whose local name is that of a required substatement (`m:type string;` in a leaf) counts as that substatement, and the leaf is accepted without a type"))
+		}
+	})
+	if n == 0 {
+		return []Obligation{undecided(R, "build: substatements seen are noted", c.Pos(build.Pos()), "no set of keywords seen is filled in build")}
+	}
+	return obs
+}
+
+func ruleParseFirstErr(c *Ctx) []Obligation {
+	const R = "PARSE.FIRSTERR"
+	parse := c.Fn("yang.(*Modules).Parse")
+	if parse == nil {
+		return []Obligation{undecided(R, "Modules.Parse", "-", "not found")}
+	}
+	var obs []Obligation
+	for _, name := range []string{"yang.buildASTWithTypeDict", "yang.(*Modules).add"} {
+		cal := c.Fn(name)
+		con := fmt.Sprintf("Modules.Parse: an error of %s is returned at once", shortFn(name))
+		if cal == nil {
+			obs = append(obs, undecided(R, con, "-", name+" not found"))
+			continue
+		}
+		sites := c.callsToDeep(parse, cal)
+		if len(sites) == 0 {
+			obs = append(obs, undecided(R, con, c.Pos(parse.Pos()), "not called from Modules.Parse"))
+			continue
+		}
+		for _, ci := range sites {
+			if errorPropagated(ci) {
+				obs = append(obs, ok(R, con, c.InstrPos(ci.(ssa.Instruction)), "if err != nil { return err }"))
+			} else {
+				obs = append(obs, bad(R, con, c.InstrPos(ci.(ssa.Instruction)), "the error is not returned where it is found: the loop goes on, and a later statement of the same text that is accepted leaves Parse answering nil for a text one of whose statements was rejected"))
+			}
+		}
+	}
+	return obs
+}
+
+func shortFn(name string) string {
+	for i := len(name) - 1; i >= 0; i-- {
+		if name[i] == '.' {
+			return name[i+1:]
+		}
+	}
+	return name
+}
+
+func ruleAugErrHome(c *Ctx) []Obligation {
+	const R = "AUG.ERRHOME"
+	aug := c.Fn("yang.(*Entry).Augment")
+	if aug == nil || len(aug.Params) == 0 {
+		return []Obligation{undecided(R, "augment applier", "-", "(*Entry).Augment not found")}
+	}
+	var recorders []*ssa.Function
+	for _, n := range []string{"yang.(*Entry).errorf", "yang.(*Entry).addError"} {
+		if f := c.Fn(n); f != nil {
+			recorders = append(recorders, f)
+		}
+	}
+	var obs []Obligation
+	n := 0
+	for _, rec := range recorders {
+		for _, ci := range c.callsToDeep(aug, rec) {
+			n++
+			con := fmt.Sprintf("Augment: error #%d is recorded on the entry the applier was called on", n)
+			recv := resolveArg(ci.Common().Args[0])
+			if isParamN(aug, recv, 0) {
+				obs = append(obs, ok(R, con, c.InstrPos(ci.(ssa.Instruction)), "receiver of the recording call is the applier's own receiver"))
+			} else {
+				obs = append(obs, bad(R, con, c.InstrPos(ci.(ssa.Instruction)), "the error is recorded on another entry ("+shortPath(AccessPath(recv))+"): the augment is in no tree and the sweep that collects errors never visits it — Process reports a clean result although an augment was refused"))
+			}
+		}
+	}
+	if n == 0 {
+		return []Obligation{undecided(R, "Augment: errors are recorded", c.Pos(aug.Pos()), "no call of the error recorders in the augment applier")}
+	}
+	return obs
+}
+
+// ---------------------------------------------------------------- TYPE.BASEKEY, TYPE.OVERLAY
+
+func init() {
+	register(&Rule{Name: "TYPE.BASEKEY", Props: []string{"C09"}, Floor: 1,
+		Doc: "the table of built-in types is asked for the type name as written: a name with a prefix (`p:string`) is never a built-in, it names a typedef of the module the prefix stands for",
+		Run: ruleTypeBaseKey})
+	register(&Rule{Name: "TYPE.OVERLAY", Props: []string{"C09"}, Floor: 2,
+		Doc: "a typedef's own units and default replace what it inherits whenever it writes them: the store is under a test of the typedef's statement only, never of what the inherited copy already holds",
+		Run: ruleTypeOverlay})
+}
+
+func ruleTypeBaseKey(c *Ctx) []Obligation {
+	const R = "TYPE.BASEKEY"
+	res := c.Fn("yang.(*Type).resolve")
+	typeT := c.Named("yang", "Type")
+	if res == nil || typeT == nil {
+		return []Obligation{undecided(R, "type resolver", "-", "(*Type).resolve / Type not found")}
+	}
+	fName := FieldVar(typeT, "Name")
+	var obs []Obligation
+	n := 0
+	c.eachInstrDeep(res, func(in ssa.Instruction) {
+		lk, isL := in.(*ssa.Lookup)
+		if !isL {
+			return
+		}
+		ld, isU := lk.X.(*ssa.UnOp)
+		if !isU {
+			return
+		}
+		g, isG := ld.X.(*ssa.Global)
+		if !isG || g.Name() != "BaseTypedefs" {
+			return
+		}
+		n++
+		con := fmt.Sprintf("Type.resolve: built-in lookup #%d is keyed by the type name as written", n)
+		if _, f, base := loadedField(lk.Index); f == fName && base != nil && isParamN(res, resolveArg(base), 0) {
+			obs = append(obs, ok(R, con, c.InstrPos(lk), "BaseTypedefs[t.Name]"))
+		} else {
+			obs = append(obs, bad(R, con, c.InstrPos(lk), "the key is not the name as written (a part of it, or another value): `p:string` binds to the built-in string whatever p stands for — an unknown prefix goes unreported and a typedef `string` of the imported module is ignored"))
+		}
+	})
+	if n == 0 {
+		return []Obligation{undecided(R, "Type.resolve: built-in lookup", c.Pos(res.Pos()), "no lookup in BaseTypedefs found in the type resolver")}
+	}
+	return obs
+}
+
+func ruleTypeOverlay(c *Ctx) []Obligation {
+	const R = "TYPE.OVERLAY"
+	res := c.Fn("yang.(*Typedef).resolve")
+	yt := c.Named("yang", "YangType")
+	if res == nil || yt == nil {
+		return []Obligation{undecided(R, "typedef resolver", "-", "(*Typedef).resolve / YangType not found")}
+	}
+	var obs []Obligation
+	for _, name := range []string{"Units", "Default"} {
+		f := FieldVar(yt, name)
+		con := fmt.Sprintf("Typedef.resolve: the typedef's own %s replaces the inherited one whenever it is written", lower(name))
+		if f == nil {
+			obs = append(obs, undecided(R, con, "-", "YangType."+name+" not found"))
+			continue
+		}
+		sts := c.storesToFieldDeep(res, f)
+		if len(sts) == 0 {
+			obs = append(obs, undecided(R, con, c.Pos(res.Pos()), "no store of the field in the typedef resolver"))
+			continue
+		}
+		verdict := ""
+		for _, st := range sts {
+			for _, g := range guardsAtDeep(st.Block()) {
+				readsCopy := false
+				operandClosureDeep(g.Cond, func(x ssa.Value) {
+					if owner, lf, _ := loadedField(x); lf != nil && owner == yt {
+						readsCopy = true
+					}
+				})
+				if readsCopy {
+					verdict = c.InstrPos(g.If)
+				}
+			}
+		}
+		if verdict == "" {
+			obs = append(obs, ok(R, con, c.InstrPos(sts[0]), "the store is under tests of the typedef's own statement only"))
+		} else {
+			obs = append(obs, bad(R, con, c.InstrPos(sts[0]), "the store also depends on what the inherited copy holds (test at "+verdict+"): in a chain of typedefs that each write it, the farthest one wins instead of the nearest"))
+		}
+	}
+	return obs
+}
+
+// ---------------------------------------------------------------- NUM.CLAMPBOUND, UNION.ERRMERGE
+
+func init() {
+	register(&Rule{Name: "NUM.CLAMPBOUND", Props: []string{"C10", "C15"}, Floor: 1,
+		Doc: "an addition that saturates (`if x > C-i { x = C } else { x += i }`) tests against the bound it saturates at: the two constants are one",
+		Run: ruleNumClampBound})
+	register(&Rule{Name: "UNION.ERRMERGE", Props: []string{"C10", "C04"}, Floor: 1,
+		Doc: "the errors of resolving a union member are taken over on every path to the next member: no `continue` of the member loop lies between the member's resolution and the merge of its errors",
+		Run: ruleUnionErrMerge})
+}
+
+func ruleNumClampBound(c *Ctx) []Obligation {
+	const R = "NUM.CLAMPBOUND"
+	var obs []Obligation
+	var fns []*ssa.Function
+	for _, fn := range c.Funcs {
+		if arithScope(c, fn) && fn.Blocks != nil {
+			fns = append(fns, fn)
+		}
+	}
+	sort.Slice(fns, func(i, j int) bool { return fns[i].Pos() < fns[j].Pos() })
+	for _, fn := range fns {
+		n := 0
+		for _, b := range fn.Blocks {
+			ifi, isIf := b.Instrs[len(b.Instrs)-1].(*ssa.If)
+			if !isIf {
+				continue
+			}
+			bo, isB := ifi.Cond.(*ssa.BinOp)
+			if !isB || bo.Op != token.GTR && bo.Op != token.GEQ {
+				continue
+			}
+			sub, isS := bo.Y.(*ssa.BinOp)
+			if !isS || sub.Op != token.SUB {
+				continue
+			}
+			c1, isK := sub.X.(*ssa.Const)
+			if !isK || c1.Value == nil {
+				continue
+			}
+			// the true branch stores a constant where x was read from
+			_, fx, _ := loadedField(bo.X)
+			var c2 *ssa.Const
+			for _, in := range b.Succs[0].Instrs {
+				st, isSt := in.(*ssa.Store)
+				if !isSt {
+					continue
+				}
+				k, isC := st.Val.(*ssa.Const)
+				if !isC || k.Value == nil {
+					continue
+				}
+				if _, fs, _ := fieldOf(st.Addr); fs != nil && fs == fx {
+					c2 = k
+				}
+			}
+			if c2 == nil {
+				continue
+			}
+			n++
+			con := fmt.Sprintf("%s: saturating addition #%d tests against the bound it saturates at", c.FnName(fn), n)
+			if c1.Value.ExactString() == c2.Value.ExactString() {
+				obs = append(obs, ok(R, con, c.InstrPos(ifi), "both constants are "+c1.Value.ExactString()))
+			} else {
+				obs = append(obs, bad(R, con, c.InstrPos(bo), fmt.Sprintf("the test is against %s but the value saturates at %s: every value between the two jumps to the bound (the end of a range part at or above the smaller one is taken to touch whatever follows, and the parts are merged)", c1.Value.ExactString(), c2.Value.ExactString())))
+			}
+		}
+	}
+	return obs
+}
+
+func ruleUnionErrMerge(c *Ctx) []Obligation {
+	const R = "UNION.ERRMERGE"
+	res := c.Fn("yang.(*Type).resolve")
+	if res == nil {
+		return []Obligation{undecided(R, "type resolver", "-", "(*Type).resolve not found")}
+	}
+	var obs []Obligation
+	n := 0
+	for _, ci := range c.callsTo(res, res) {
+		call, isC := ci.(*ssa.Call)
+		if !isC {
+			continue
+		}
+		outer := loopHeaderOf(call.Block())
+		if outer == nil {
+			continue
+		}
+		n++
+		con := fmt.Sprintf("Type.resolve: the errors of union member #%d are merged before the next member is looked at", n)
+		// the loop that reads the returned list element by element
+		var merge *ssa.BasicBlock
+		for _, r := range refsOf(call) {
+			switch x := r.(type) {
+			case *ssa.IndexAddr:
+				if h := loopHeaderOf(x.Block()); h != nil && h != outer {
+					merge = h
+				}
+			case *ssa.Call:
+				// append(errs, list...) takes the whole list at once
+				if isAppend(x) && len(x.Call.Args) == 2 && x.Call.Args[1] == ssa.Value(call) {
+					merge = x.Block()
+				}
+			}
+		}
+		if merge == nil {
+			obs = append(obs, bad(R, con, c.InstrPos(call), "the list of errors the member's resolution returns is not read: a bad restriction inside a union member goes unreported"))
+			continue
+		}
+		if merge == call.Block() || !blockReaches(call.Block(), outer, map[*ssa.BasicBlock]bool{merge: true}) {
+			obs = append(obs, ok(R, con, c.InstrPos(call), "every path from the member's resolution to the next member passes the merge of its errors"))
+		} else {
+			obs = append(obs, bad(R, con, c.InstrPos(call), "the next member can be reached from the member's resolution without passing the merge of its errors (a `continue` of the member loop in between): a member that fails and is left equal to an earlier one — `union { type int8; type int8 { range \"1..1000\"; } }` — is dropped together with its error"))
+		}
+	}
+	if n == 0 {
+		return []Obligation{undecided(R, "Type.resolve: union members", c.Pos(res.Pos()), "no recursive resolution inside a loop found")}
+	}
+	return obs
+}
+
+// ---------------------------------------------------------------- LOOP.SKIPNOTSTOP
+
+func init() {
+	register(&Rule{Name: "LOOP.SKIPNOTSTOP", Props: []string{"C13", "C06", "C09"}, Floor: 2,
+		Doc: "in a scan over the includes of a module, meeting a submodule that was already visited skips that one and goes on with the next: the visited branch stays inside the scan",
+		Run: ruleLoopSkipNotStop})
+}
+
+func ruleLoopSkipNotStop(c *Ctx) []Obligation {
+	const R = "LOOP.SKIPNOTSTOP"
+	incT := c.Named("yang", "Include")
+	if incT == nil {
+		return []Obligation{undecided(R, "include scans", "-", "Include not found")}
+	}
+	fLink := FieldVar(incT, "Module")
+	var obs []Obligation
+	var fns []*ssa.Function
+	for _, fn := range c.Funcs {
+		if c.isRepoFn(fn) && fn.Blocks != nil {
+			fns = append(fns, fn)
+		}
+	}
+	sort.Slice(fns, func(i, j int) bool { return fns[i].Pos() < fns[j].Pos() })
+	for _, fn := range fns {
+		n := 0
+		for _, b := range fn.Blocks {
+			ifi, isIf := b.Instrs[len(b.Instrs)-1].(*ssa.If)
+			if !isIf {
+				continue
+			}
+			h := loopHeaderOf(b)
+			if h == nil {
+				continue
+			}
+			// a test of a visited set whose key comes from the linked module of an include
+			gc, hitOnTrue := stripNot(ifi.Cond, true)
+			lk, isL := gc.(*ssa.Lookup)
+			if !isL {
+				if ex, isE := gc.(*ssa.Extract); isE && ex.Index == 1 {
+					lk, isL = ex.Tuple.(*ssa.Lookup)
+				}
+			}
+			if !isL {
+				// `a == nil || seen[a]` materialised: the lookup is the last operand of a phi
+				if phi, isP := gc.(*ssa.Phi); isP && phi.Comment == "||" {
+					for _, e := range phi.Edges {
+						if l2, isL2 := e.(*ssa.Lookup); isL2 {
+							lk, isL = l2, true
+						}
+					}
+				}
+			}
+			if !isL {
+				continue
+			}
+			if mt, isMap := lk.X.Type().Underlying().(*types.Map); !isMap || !isBoolType(mt.Elem()) {
+				continue
+			}
+			fromLink := false
+			operandClosure(lk.Index, func(x ssa.Value) {
+				if _, f, _ := loadedField(x); f == fLink {
+					fromLink = true
+				}
+			})
+			if _, f, _ := loadedField(lk.Index); f == fLink {
+				fromLink = true
+			}
+			if !fromLink {
+				continue
+			}
+			n++
+			con := fmt.Sprintf("%s: include scan #%d goes on after a submodule that was already visited", c.FnName(fn), n)
+			hit := b.Succs[0]
+			if !hitOnTrue {
+				hit = b.Succs[1]
+			}
+			if hit == h || loopHeaderOf(hit) == h {
+				obs = append(obs, ok(R, con, c.InstrPos(lk), "the visited branch leads to the next include"))
+			} else {
+				obs = append(obs, bad(R, con, c.InstrPos(lk), "the visited branch leaves the scan: the includes written after one that was already visited are never looked at (m includes a, b, c; a includes b: what c defines is not found)"))
+			}
+		}
+	}
+	return obs
+}
